@@ -18,7 +18,7 @@ RULE = ("cell table: DF 0..31 x (for DF17/18) type code 0..31 x the three bits a
         "outside the accepted DF/TC(/TC29 subtype) set -> RuntimeError, inside -> a value; (c) documented shape of the value; (d) dispatchers equal the variant chosen "
         "by type code alone (altitude, velocity, position_with_ref, position on pairs of cells). non-trivial = a (function, cell) outside the accepted set or a reserved "
         "payload inside it; distinct by cell and payload"
-        " Also: valid Comm-B register contents incl. one field switched to 'not available' through commb.*, infer, is50or60 and tell (leg register_frames); for every unary decoder the keyword call msg= and the frame held in numpy.str_ / a str subclass; int / float / datetime time stamps and hex case in the pair dispatch; a libFuzzer campaign over the cell encoding in the thorough tier.")
+        " Also: valid Comm-B register contents incl. one field switched to 'not available' through commb.*, infer, is50or60 and tell (leg register_frames); for every unary decoder the keyword call msg= and the frame held in numpy.str_ / a str subclass; int / float / datetime time stamps and hex case in the pair dispatch; a libFuzzer campaign over the cell encoding in the thorough tier, payloads cut into segments that sit on corners together, TC19 payloads with both velocity fields, vertical rate and difference on corners, DF11 overlays 0-255, receivers half-way between surface longitude candidates in the pair dispatch.")
 ASSUMPTIONS = ["guard table written from the docstrings / error texts; functions without a documented restriction are held to (a) and (c) only",
                "TC29 subtypes 2-3 and TC28 subtype 2 (documented 'not implemented') may return or raise RuntimeError",
                "length-inconsistent frames (14 digits announcing a long DF and vice versa) are out of contract and not generated here"]
